@@ -446,3 +446,186 @@ for _a, _b in (("C", "A"), ("A", "C"), ("D", "A")):
     s, c, p = _pair(_a, _b, obs_range=True)
     register(Obligation("verif.data.Data.get_scores#INV:history-with-obsrange[%s,%s]" % (_a, _b), ("C18", "C03"), s, c, p, modules=MOD,
                         functions=["verif.data.Data.get_scores", "verif.data.Data._get_score"]))
+
+
+# ----------------------------------------------------------------------------------------------
+# bounded stand-ins: _get_common_indices (C02, C03) and Data.__init__ (C03)
+# (set operations on coordinate vectors and filter-append loops: DESIGN 2.4-3; labelled bounded)
+# ----------------------------------------------------------------------------------------------
+class _AxisInput(object):
+    def __init__(self, name, values, axis_kind):
+        import verif.location
+        self.fullname = name
+        self.times = self.leadtimes = None
+        self.locations = []
+        if axis_kind == "time":
+            self.times = values
+        elif axis_kind == "leadtime":
+            self.leadtimes = values
+        else:
+            self.locations = [verif.location.Location(v, 0, 0, 0) for v in values]
+
+
+def _common_indices(n_inputs, axis_kind):
+    kinds = (FIN, NAN) if axis_kind != "location" else (FIN,)
+    axis = {"time": verif.axis.Time, "leadtime": verif.axis.Leadtime, "location": verif.axis.Location}[axis_kind]()
+
+    def setup(G):
+        vals = [G.array("v%d" % i, ("a%d" % i,), kinds=kinds, grid=[0.0, 1.0, 2.0, 3.0]) for i in range(n_inputs)]
+        return Bag(vals=vals, aux=G.array("aux", ("ax",), kinds=(FIN,), grid=[0.0, 1.0, 2.0, 5.0]), use_aux=G.boolean("use_aux"))
+
+    def call(inp):
+        inputs = [_AxisInput("in%d" % i, v, axis_kind) for i, v in enumerate(inp.vals)]
+        return verif.data.Data._get_common_indices(inputs, axis, inp.aux if inp.use_aux else None)
+
+    def post(S, inp, out):
+        vals = [_np.asarray(v, float) for v in inp.vals]
+        common = set(x for x in vals[0] if x == x)
+        for v in vals[1:]:
+            common &= set(x for x in v if x == x)
+        if inp.use_aux:
+            common &= set(float(x) for x in inp.aux)
+        want = sorted(common)
+        goals = [("one-index-list-per-input-in-input-order", len(out) == n_inputs),
+                 ("every-list-has-one-entry-per-common-value", all(len(II) == len(want) for II in out))]
+        ok_val = ok_first = True
+        for v, II in zip(vals, out):
+            if len(II) != len(want):
+                ok_val = False
+                continue
+            for k, x in enumerate(want):
+                pos = int(II[k])
+                ok_val = ok_val and (0 <= pos < len(v)) and v[pos] == x
+                ok_first = ok_first and (0 <= pos < len(v)) and not any(v[j] == x for j in range(pos))
+        goals.append(("entry-k-points-at-the-k-th-smallest-common-value-in-the-input's-own-vector(ascending,distinct,no-missing)", ok_val))
+        goals.append(("first-occurrence-of-a-repeated-coordinate", ok_first))
+        return goals
+    return setup, call, post
+
+
+for _n in (1, 2, 3):
+    for _ak in ("time", "leadtime", "location"):
+        if _n == 3 and _ak != "time":
+            continue
+        s, c, p = _common_indices(_n, _ak)
+        bounded_obligation("verif.data.Data._get_common_indices#BOUNDED:N=%d,%s" % (_n, _ak), ("C02", "C03", "C01"), s, c, p,
+                           bound="%d input(s), coordinate vectors of length 1..3 each (lengths varied independently), values from {0,1,2,3,NaN}, "
+                                 "optional user list from {0,1,2,5}: exhaustive where the grid is below the budget, seeded random sample beyond" % _n,
+                           sizes=(1, 2, 3), budget=30000, thorough_budget=400000, vary_axes=True,
+                           functions=["verif.data.Data._get_common_indices"])
+
+
+def _init_spec(inp):
+    """C03, from the property statement: verified dimensions = intersection of the inputs and of every subsetting option"""
+    import verif.util
+    ids = [[float(x) for x in v] for v in inp.ids]
+    common_ids = set(ids[0])
+    for v in ids[1:]:
+        common_ids &= set(v)
+
+    def meta(i):
+        return 10.0 * i, 20.0 * i, 100.0 * i            # lat, lon, elev of location id i (same in every input)
+    keep = set()
+    for i in common_ids:
+        lat, lon, elev = meta(i)
+        ok = True
+        if inp.use_lat:
+            ok = ok and inp.lat_lo <= lat <= inp.lat_hi
+        if inp.use_lon:
+            ok = ok and inp.lon_lo <= lon <= inp.lon_hi
+        if inp.use_elev:
+            ok = ok and inp.elev_lo <= elev <= inp.elev_hi
+        if inp.use_l:
+            ok = ok and i in [float(x) for x in inp.l]
+        if inp.use_lx:
+            ok = ok and i not in [float(x) for x in inp.lx]
+        if ok:
+            keep.add(i)
+    ts = set(float(x) for x in inp.times[0])
+    for v in inp.times[1:]:
+        ts &= set(float(x) for x in v)
+    if inp.use_t:
+        ts &= set(float(x) for x in inp.t)
+    ts_before_dates = set(ts)
+    if inp.use_d:
+        days = set(verif.util.date_to_unixtime(int(d)) for d in inp.d)
+        ts = set(t for t in ts if (t // 86400) * 86400 in days)
+    if inp.use_tod:
+        ts = set(t for t in ts if (t % 86400) / 3600 in [float(x) for x in inp.tod])
+    ls = set(float(x) for x in inp.leadtimes[0])
+    for v in inp.leadtimes[1:]:
+        ls &= set(float(x) for x in v)
+    if inp.use_o:
+        ls &= set(float(x) for x in inp.o)
+    return sorted(ts), sorted(ls), sorted(keep), sorted(ts_before_dates)
+
+
+def _data_init(n_inputs):
+    import verif.location
+
+    def setup(G):
+        b = Bag(times=[], leadtimes=[], ids=[])
+        for i in range(n_inputs):
+            b.times.append(G.array("times%d" % i, ("t%d" % i,), kinds=(FIN,), grid=[0.0, 21600.0, 86400.0]))
+            b.leadtimes.append(G.array("lead%d" % i, ("l%d" % i,), kinds=(FIN,), grid=[0.0, 6.0, 12.0]))
+            b.ids.append(G.array("ids%d" % i, ("s%d" % i,), kinds=(FIN,), grid=[0.0, 1.0, 2.0]))
+        for flag in ("t", "d", "tod", "o", "l", "lx", "lat", "lon", "elev"):
+            b["use_" + flag] = G.boolean("use_" + flag)
+        b.t = G.array("opt_t", ("ot",), kinds=(FIN,), grid=[0.0, 21600.0, 86400.0, 86400.0, 7.0])
+        b.d = G.array("opt_d", ("od",), kinds=(FIN,), grid=[19700101.0, 19700102.0, 19700101.0, 19700103.0])
+        b.tod = G.array("opt_tod", ("otod",), kinds=(FIN,), grid=[0.0, 6.0, 0.0, 12.0])
+        b.o = G.array("opt_o", ("oo",), kinds=(FIN,), grid=[0.0, 6.0, 12.0, 24.0])
+        b.l = G.array("opt_l", ("ol",), kinds=(FIN,), grid=[0.0, 1.0, 2.0, 7.0])
+        b.lx = G.array("opt_lx", ("olx",), kinds=(FIN,), grid=[0.0, 1.0, 2.0])
+        for nm, grid in (("lat", [0.0, 10.0, 20.0, 5.0]), ("lon", [0.0, 20.0, 40.0, 30.0]), ("elev", [0.0, 100.0, 200.0, 150.0])):
+            b[nm + "_lo"] = G.num(nm + "_lo", grid=grid)
+            b[nm + "_hi"] = G.num(nm + "_hi", grid=grid)
+        return b
+
+    def call(inp):
+        inputs = []
+        for i in range(n_inputs):
+            T, L, Sn = len(inp.times[i]), len(inp.leadtimes[i]), len(inp.ids[i])
+            si = StubInput("in%d" % i, _np.zeros([T, L, Sn]), _np.zeros([T, L, Sn]))
+            si.times = _np.asarray(inp.times[i], float)
+            si.leadtimes = _np.asarray(inp.leadtimes[i], float)
+            si.locations = [verif.location.Location(float(x), 10.0 * float(x), 20.0 * float(x), 100.0 * float(x)) for x in inp.ids[i]]
+            inputs.append(si)
+        kw = {}
+        if inp.use_t: kw["times"] = [float(x) for x in inp.t]
+        if inp.use_d: kw["dates"] = [int(x) for x in inp.d]
+        if inp.use_tod: kw["tods"] = [float(x) for x in inp.tod]
+        if inp.use_o: kw["leadtimes"] = [float(x) for x in inp.o]
+        if inp.use_l: kw["locations"] = [float(x) for x in inp.l]
+        if inp.use_lx: kw["locations_x"] = [float(x) for x in inp.lx]
+        if inp.use_lat: kw["lat_range"] = [float(inp.lat_lo), float(inp.lat_hi)]
+        if inp.use_lon: kw["lon_range"] = [float(inp.lon_lo), float(inp.lon_hi)]
+        if inp.use_elev: kw["elev_range"] = [float(inp.elev_lo), float(inp.elev_hi)]
+        return verif.data.Data(inputs, **kw)
+
+    def post(S, inp, out):
+        ts, ls, ids, ts0 = _init_spec(inp)
+        got_t = [float(x) for x in out.times]
+        got_l = [float(x) for x in out.leadtimes]
+        got_s = [float(loc.id) for loc in out.locations]
+        idx_ok = all(len(out._timesI[i]) == len(got_t) and len(out._leadtimesI[i]) == len(got_l) and len(out._locationsI[i]) == len(got_s)
+                     for i in range(n_inputs))
+        return [("times=intersection-and-t,d,tod-subsets,ascending,distinct", got_t == ts),
+                ("leadtimes=intersection-and-o-subset,ascending,distinct", got_l == ls),
+                ("locations=intersection-and-l,lx,latrange,lonrange,elevrange(inclusive),ascending,distinct", got_s == ids),
+                ("nothing-selected-must-stop-with-an-error-before-dates-are-applied", bool(ts0) and bool(ls) and bool(ids)),
+                ("index-lists-match-the-verified-dimensions", idx_ok)]
+
+    def raises(S, inp, outcome):
+        ts, ls, ids, ts0 = _init_spec(inp)
+        return [("error-exit-only-when-the-selection-is-empty", outcome.kind == "abort" and (not ts0 or not ls or not ids))]
+    return setup, call, post, raises
+
+
+for _n in (1, 2):
+    s, c, p, r = _data_init(_n)
+    bounded_obligation("verif.data.Data.__init__#BOUNDED:N=%d" % _n, ("C03",), s, c, p, raises=r,
+                       bound="%d input(s); times/leadtimes/location ids of length 2..3 from small grids; every subset of the options -t -d -tod -o -l -lx "
+                             "-latrange -lonrange -elevrange with values from small grids incl. end points equal to a station's coordinate and values "
+                             "matching nothing; seeded random sample of the product (count in evidence)" % _n,
+                       sizes=(2, 3), budget=24000, thorough_budget=300000, vary_axes=True, functions=["verif.data.Data.__init__"])
